@@ -7,6 +7,7 @@ import (
 	"encoding/xml"
 	"errors"
 	"fmt"
+	"gosrc.io/xmpp/stanza"
 	"io"
 	"net"
 	"os"
@@ -622,6 +623,22 @@ func vfC18Run(run *vfkit.Run, cs *vfC18Case) {
 			return
 		}
 		<-ready
+		stopBusy := make(chan struct{})
+		defer close(stopBusy)
+		if cs.Variant == "busy" {
+			// an application that sends something in every interval: the keepalive is written at the interval all the
+			// same (the statement knows no "only when idle")
+			go func() {
+				for i := 0; ; i++ {
+					select {
+					case <-stopBusy:
+						return
+					case <-time.After(iv / 3):
+						c.Send(stanza.Message{Attrs: stanza.Attrs{Id: fmt.Sprintf("busy-%d", i), To: "x@y"}, Body: "b"})
+					}
+				}
+			}()
+		}
 		lossesBefore := obs.CountState(StateDisconnected)
 		ok := vfWaitUntil(time.Duration(80*cs.K)*iv+5*time.Second, func() bool { n, _ := rawKeepalives(); return n >= cs.K })
 		nk, raw := rawKeepalives()
@@ -638,7 +655,7 @@ func vfC18Run(run *vfkit.Run, cs *vfC18Case) {
 			return
 		}
 		// keepalives are single newlines and nothing else was written on the idle resumed session
-		if strings.Trim(raw, "\n") != "" {
+		if cs.Variant != "busy" && strings.Trim(raw, "\n") != "" {
 			run.Violation("C18/keepalive-not-whitespace", fmt.Sprintf("the idle session carried %q", vfClip2(raw, 200)), cs)
 			return
 		}
@@ -679,6 +696,7 @@ func TestVf_C18(t *testing.T) {
 		cases = append(cases, &vfC18Case{Mode: "e2e", Interval: []int{5000, 10000, 20000, 40000}[i%4], K: 10, Variant: "in-handler"})
 		cases = append(cases, &vfC18Case{Mode: "e2e", Interval: []int{10000, 20000, 40000, 5000}[i%4], K: 10, Variant: "tls"})
 		cases = append(cases, &vfC18Case{Mode: "e2e", Interval: []int{20000, 40000, 5000, 10000}[i%4], K: 10, Variant: "logged"})
+		cases = append(cases, &vfC18Case{Mode: "e2e", Interval: []int{40000, 20000, 10000, 30000}[i%4], K: 10, Variant: "busy"})
 		cases = append(cases, &vfC18Case{Mode: "clean-close", Interval: []int{5000, 10000, 20000, 40000}[i%4], K: 4})
 		cases = append(cases, &vfC18Case{Mode: "half-open", Interval: []int{5000, 10000, 20000, 40000}[i%4], K: 4})
 		cases = append(cases, &vfC18Case{Mode: "half-open", Interval: []int{10000, 20000, 40000, 5000}[i%4], K: 4, Variant: "after-resume"})
